@@ -81,8 +81,10 @@ FeedArg(st, id, v) ==
       stays == it.arity \in {"fallback", "fallback_with"} /\ Cur(st).acc[id] = <<>> /\ BadValue(it, v)
       \* a repetition stops at the first invalid value: later occurrences are never looked at and stay where
       \* they were typed, too
-      stuck == it.arity \in {"many", "some", "last"} /\ \E i \in DOMAIN Cur(st).acc[id] : BadValue(it, Cur(st).acc[id][i]) IN
-  Feed(IF stays \/ stuck THEN [st EXCEPT !.frozen = TRUE] ELSE st, id, v)
+      stuck == it.arity \in {"many", "some", "last"} /\ \E i \in DOMAIN Cur(st).acc[id] : BadValue(it, Cur(st).acc[id][i])
+      \* `catch` turns an invalid value into absence by dropping the copy of the ledger as well
+      caught == it.catch /\ it.arity \in {"opt", "many", "some"} /\ BadValue(it, v) IN
+  Feed(IF stays \/ stuck \/ caught THEN [st EXCEPT !.frozen = TRUE] ELSE st, id, v)
 PushPos(st, w, after) == SetCur(st, [Cur(st) EXCEPT !.pos = Append(@, [w |-> w, after |-> after])])
 
 \* a name that an enclosing level declares, typed to the right of a subcommand name: the
@@ -172,7 +174,11 @@ EnvOf(envv, it) == IF it.env = "" THEN "UNSET" ELSE envv[it.env]
 NamedVal(f, it, envv) ==
   LET occ0 == f.acc[it.id]
       ev   == EnvOf(envv, it)
-      occ  == IF occ0 = <<>> /\ ev # "UNSET" THEN <<(IF it.kind = "arg" THEN ev ELSE "U")>> ELSE occ0
+      \* `catch` (on optional/many/some): a value that fails conversion or the guard counts as absence; one
+      \* that came from the environment leaves nothing behind, a typed one stays on the line unclaimed
+      catches == it.kind = "arg" /\ it.catch /\ it.arity \in {"opt", "many", "some"}
+      occ  == IF occ0 = <<>> /\ ev # "UNSET" /\ ~(catches /\ BadValue(it, ev))
+              THEN <<(IF it.kind = "arg" THEN ev ELSE "U")>> ELSE occ0
       n    == Len(occ)
       Fail(k) == IF it.kind = "arg" /\ ConvBad(it.vt, occ[k]) THEN "conv"
                  ELSE IF it.kind = "arg" /\ it.guard /\ occ[k] = GuardBad THEN "guard" ELSE ""
@@ -184,6 +190,7 @@ NamedVal(f, it, envv) ==
       Miss == [ok |-> FALSE, why |-> [k |-> "missing", id |-> it.id]]
       Many == [ok |-> FALSE, why |-> [k |-> "toomany", id |-> it.id]] IN
   IF it.kind = "switch" THEN (IF Len(occ0) > 1 THEN Many ELSE [ok |-> TRUE, v |-> (n >= 1)])
+  ELSE IF bad # {} /\ catches THEN [ok |-> FALSE, why |-> [k |-> "unexpected", id |-> it.id, caught |-> TRUE]]
   ELSE IF bad # {}
        THEN LET k == CHOOSE k \in bad : \A j \in bad : k <= j IN
             [ok |-> FALSE, why |-> [k |-> Fail(k), id |-> it.id, w |-> occ[k], o |-> k,
